@@ -1394,12 +1394,21 @@ def replay_family(arg):
         out["variants"].append(v)
         m1 = onnx.ModelProto()
         m1.CopyFrom(m)
+        from onnxscript._internal import _verif
+
+        del _verif.traces[:]
         try:
             m2 = _apply_family_variant(vn, m1)
         except Exception as e:  # noqa: BLE001
             v["exc"] = exc_text(e)
             v["site"] = exc_site(e)
+            _verif.abort_all()
+            del _verif.traces[:]
             continue
+        if want_abs and _verif.ENABLED:
+            # the recorded rewriter traces of this entry point (validated by TLC against RewriteApply.tla in C04)
+            v["rwtraces"] = [t for t in _verif.traces if t["kind"] == "rewriter" and any(e["ev"] == "Apply" for e in t["events"])][:4]
+        del _verif.traces[:]
         v["changed"] = op_multiset(m2) != op_multiset(m)
         try:
             onnx.checker.check_model(m2)
